@@ -16,7 +16,7 @@ import dataiter as di
 from dataiter import Vector, DataFrame, DataFrameColumn, dtypes
 
 LONG_A = "a" * 50
-LONG_B = "a" * 49 + "b"
+LONG_B = "a" * 50 + "b"  # agrees with LONG_A in the first 50 characters (a comparison through a truncating cast ties them)
 
 # ---------------------------------------------------------------------------
 # kinds
@@ -25,6 +25,7 @@ KINDS = {
     "f8": "float64",
     "i8": "int64",
     "u1": "uint8",
+    "i4": "int32",
     "b1": "bool",
     "str": "StringDType",
     "U": "fixed-width unicode",
@@ -46,6 +47,8 @@ def np_array(kind, toks):
         return np.array([int(t) for t in toks], dtype="int64")
     if kind == "u1":
         return np.array([int(t) for t in toks], dtype="uint8")
+    if kind == "i4":
+        return np.array([int(t) for t in toks], dtype="int32")
     if kind == "b1":
         return np.array([bool(t) for t in toks], dtype="bool")
     if kind == "str":
@@ -212,6 +215,7 @@ A = {
         "thorough": [0, 1, 2, -1, -2, 9007199254740993, -9223372036854775808, 2305843009213693951],
         "key": [0, 1, 2],
     },
+    "i4": {"quick": [0, 1, -2147483647, 2147483647], "thorough": [0, 1, -2147483647, 2147483647], "key": [0, 1, -2147483647]},
     "u1": {"quick": [0, 5, 200], "thorough": [0, 5, 200], "key": [0, 5, 200]},
     "b1": {"quick": [False, True], "thorough": [False, True], "key": [False, True]},
     "str": {
@@ -254,7 +258,7 @@ def order_key(kind):
     """Total order on non-missing tokens of a kind, as the properties state it."""
     if kind == "f8":
         return float
-    if kind in ("i8", "u1", "obj"):
+    if kind in ("i8", "u1", "i4", "obj"):
         return lambda t: t
     if kind == "b1":
         return lambda t: int(t)
